@@ -13,6 +13,8 @@ import (
 	"sort"
 	"strings"
 
+	"go/types"
+
 	"golang.org/x/tools/go/packages"
 	"golang.org/x/tools/go/ssa"
 	"golang.org/x/tools/go/ssa/ssautil"
@@ -25,6 +27,100 @@ type cell struct {
 	Kind string `json:"kind"`
 }
 
+// localObject: the address of a structure allocated in this very function (directly, or a field of one)
+func localObject(v ssa.Value) bool {
+	switch x := v.(type) {
+	case *ssa.Alloc:
+		return true
+	case *ssa.FieldAddr:
+		return localObject(x.X)
+	case *ssa.IndexAddr:
+		return localObject(x.X)
+	}
+	return false
+}
+
+func fieldName(fa *ssa.FieldAddr) string {
+	t := fa.X.Type().Underlying()
+	if p, ok := t.(*types.Pointer); ok {
+		if st, ok := p.Elem().Underlying().(*types.Struct); ok {
+			return st.Field(fa.Field).Name()
+		}
+	}
+	return fmt.Sprint(fa.Field)
+}
+
+// sharedTypes: the named structure types reachable from a configured engine or a parsed template (through fields,
+// pointers, slices, maps, and - for interface-typed fields - every type of the repository implementing the
+// interface).  Values of these types are shared by all the goroutines that parse and render with one engine.
+func sharedTypes(pkgs []*packages.Package) map[string]bool {
+	var named []*types.Named
+	var roots []types.Type
+	packages.Visit(pkgs, nil, func(p *packages.Package) {
+		if !strings.HasPrefix(p.PkgPath, "github.com/osteele/liquid") {
+			return
+		}
+		sc := p.Types.Scope()
+		for _, n := range sc.Names() {
+			if tn, ok := sc.Lookup(n).(*types.TypeName); ok {
+				if nt, ok := tn.Type().(*types.Named); ok {
+					named = append(named, nt)
+					if p.PkgPath == "github.com/osteele/liquid" && (n == "Engine" || n == "Template") {
+						roots = append(roots, nt)
+					}
+				}
+			}
+		}
+	})
+	seen := map[string]bool{}
+	var visit func(t types.Type)
+	visit = func(t types.Type) {
+		switch x := t.(type) {
+		case *types.Named:
+			key := x.String()
+			if seen[key] || !strings.HasPrefix(key, "github.com/osteele/liquid") {
+				return
+			}
+			seen[key] = true
+			visit(x.Underlying())
+			if it, ok := x.Underlying().(*types.Interface); ok && it.NumMethods() > 0 {
+				for _, nt := range named {
+					if _, isIface := nt.Underlying().(*types.Interface); isIface {
+						continue
+					}
+					if types.Implements(nt, it) || types.Implements(types.NewPointer(nt), it) {
+						visit(nt)
+					}
+				}
+			}
+		case *types.Pointer:
+			visit(x.Elem())
+		case *types.Slice:
+			visit(x.Elem())
+		case *types.Array:
+			visit(x.Elem())
+		case *types.Map:
+			visit(x.Key())
+			visit(x.Elem())
+		case *types.Struct:
+			for i := 0; i < x.NumFields(); i++ {
+				visit(x.Field(i).Type())
+			}
+		case *types.Signature:
+			// (closures: their captured variables are covered by the "captured" rule)
+		}
+	}
+	for _, r := range roots {
+		visit(r)
+	}
+	return seen
+}
+
+var shared map[string]bool
+
+// perCall: not one of the structures shared through the engine or a template
+func perCall(t string) bool { return !shared[strings.TrimPrefix(t, "*")] }
+
 func main() {
 	dir := os.Args[1]
 	cfg := &packages.Config{Mode: packages.LoadAllSyntax, Dir: dir, Env: append(os.Environ(), "GOFLAGS=-mod=mod")}
@@ -35,6 +131,12 @@ func main() {
 	}
 	if packages.PrintErrors(pkgs) > 0 {
 		os.Exit(2)
+	}
+	shared = sharedTypes(pkgs)
+	if os.Getenv("LQ_EXTRACT_DEBUG") != "" {
+		for k := range shared {
+			fmt.Fprintln(os.Stderr, "shared type", k)
+		}
 	}
 	prog, _ := ssautil.AllPackages(pkgs, ssa.InstantiateGenerics)
 	prog.Build()
@@ -120,6 +222,13 @@ func main() {
 				}
 				pos := prog.Fset.Position(st.Pos())
 				switch a := st.Addr.(type) {
+				case *ssa.FieldAddr:
+					// a field of a structure the function did not create itself (it came in as a parameter or
+					// receiver, or was read from somewhere): shared unless the structure belongs to one call
+					if !locks && !configTime && !localObject(a.X) && !perCall(a.X.Type().String()) {
+						name := a.X.Type().String() + "." + fieldName(a)
+						cells = append(cells, cell{fn.String(), name, fmt.Sprintf("%s:%d", strings.TrimPrefix(pos.Filename, dir+"/"), pos.Line), "sharedfield"})
+					}
 				case *ssa.FreeVar:
 					if escaping[fn] {
 						cells = append(cells, cell{fn.String(), a.Name(), fmt.Sprintf("%s:%d", strings.TrimPrefix(pos.Filename, dir+"/"), pos.Line), "captured"})
